@@ -36,7 +36,7 @@ def concretise(job, unit, res, workdir, log):
     returns dict(obligation, cex_inputs, reproduced, native_output, harness)"""
     out = dict(inputs=None, reproduced=False, native_output='', note='')
     try:
-        ast = R.get_ast(workdir, unit['driver'], unit.get('defines', ()))
+        ast = R.get_ast(workdir, unit['driver'], unit.get('defines', ()), unit.get('cflags', ()))
         specs = {k: R.expand_spec(v) for k, v in job.get('specs', {}).items()}
         fn = job['fn']
         # lowered text without contracts; real callee bodies are used where they exist
@@ -143,7 +143,7 @@ def concretise(job, unit, res, workdir, log):
         san = ['-fsanitize=address,undefined', '-fno-sanitize-recover=undefined', '-g', '-O0']
         rc1, o1 = RP.run(['gcc', '-std=gnu11', '-DQX_NATIVE', '-w', '-c', nat_c, '-o', os.path.join(jd, 'native.o')] + san, cwd=jd)
         rc2, o2 = RP.run(['g++', '-std=c++17', '-w', '-fno-access-control', '-I', R.INCLUDE, '-I', os.path.join(VERIF, 'inst'), '-c', wfile,
-                          '-o', os.path.join(jd, 'wrapper.o')] + san + defs, cwd=jd)
+                          '-o', os.path.join(jd, 'wrapper.o')] + san + defs + list(unit.get('cflags', ())), cwd=jd)
         if rc1 != 0 or rc2 != 0:
             out['note'] = 'native replay does not compile: ' + (o1 + o2)[-1200:]
             return out
